@@ -37,6 +37,7 @@ func c01(c *Ctx) {
 	w.extraServerOnly("C01.extra-server-only")
 	w.deflateTail("C01.deflate-tail")
 	w.wrapperClose("C01.compress-writer")
+	compressorDeflates(c, "C01.compress-writer")
 }
 
 // cursorSiblings: every write API advances w.pos by what it copied.
